@@ -34,11 +34,11 @@ end SE2
 namespace SE2T
 
 /-- The coefficients `A = sin θ/θ`, `B = (1-cos θ)/θ` with their small-angle branch
-    (`theta_sq < eps`), as written three times in `SE2Tangent_base.h` (exp, ljac) and once in
+    (`theta_sq*theta_sq < eps`, i.e. |θ| < eps^(1/4)), as written three times in `SE2Tangent_base.h` (exp, ljac) and once in
     `SE2_base.h` (log). -/
 def coefAB (theta cos_theta sin_theta : K) : K × K :=
   let theta_sq := theta * theta
-  if Scalar.lt theta_sq Scalar.eps then
+  if Scalar.lt (theta_sq * theta_sq) Scalar.eps then
     (nat 1 - rat 1 6 * theta_sq,
      rat 1 2 * theta - rat 1 24 * theta * theta_sq)
   else
@@ -63,7 +63,7 @@ def expJ (t : SE2T K) : M3 K :=
   let theta_sq := theta * theta
   let (A, B) := coefAB theta cos_theta sin_theta
   let (j02, j12) :=
-    if Scalar.lt theta_sq Scalar.eps then
+    if Scalar.lt (theta_sq * theta_sq) Scalar.eps then
       (-t.y / nat 2 + theta * t.x / nat 6,
         t.x / nat 2 + theta * t.y / nat 6)
     else
@@ -81,14 +81,13 @@ def rjacinv (t : SE2T K) : M3 K :=
   let sin_theta := Scalar.sin theta
   let theta_sq := theta * theta
   let A := theta * sin_theta
-  let B := theta * cos_theta
   let j01 := -theta * rat 1 2
   let j10 := -j01
-  if Scalar.gt theta_sq Scalar.eps then
+  if Scalar.gt (theta_sq * theta_sq) Scalar.eps then
     let j00 := -A / (nat 2 * cos_theta - nat 2)
-    let den := nat 2 * theta * (cos_theta - nat 1)
-    let j02 := (A * t.x + B * t.y - theta * t.y + nat 2 * t.x * cos_theta - nat 2 * t.x) / den
-    let j12 := (-B * t.x + A * t.y + theta * t.x + nat 2 * t.y * cos_theta - nat 2 * t.y) / den
+    let C := nat 1 / theta - sin_theta / (nat 2 * (nat 1 - cos_theta))
+    let j02 := t.y / nat 2 + C * t.x
+    let j12 := -t.x / nat 2 + C * t.y
     ⟨j00, j01, j02, j10, j00, j12, nat 0, nat 0, nat 1⟩
   else
     let j00 := nat 1 - theta_sq / nat 12
@@ -103,7 +102,7 @@ def ljac (t : SE2T K) : M3 K :=
   let theta_sq := theta * theta
   let (A, B) := coefAB theta cos_theta sin_theta
   let (j02, j12) :=
-    if Scalar.lt theta_sq Scalar.eps then
+    if Scalar.lt (theta_sq * theta_sq) Scalar.eps then
       ( t.y / nat 2 + theta * t.x / nat 6,
        -t.x / nat 2 + theta * t.y / nat 6)
     else
@@ -119,14 +118,13 @@ def ljacinv (t : SE2T K) : M3 K :=
   let sin_theta := Scalar.sin theta
   let theta_sq := theta * theta
   let A := theta * sin_theta
-  let B := theta * cos_theta
   let j01 := theta * rat 1 2
   let j10 := -j01
-  if Scalar.gt theta_sq Scalar.eps then
+  if Scalar.gt (theta_sq * theta_sq) Scalar.eps then
     let j00 := -A / (nat 2 * cos_theta - nat 2)
-    let den := nat 2 * theta * (cos_theta - nat 1)
-    let j02 := (A * t.x - B * t.y + theta * t.y + nat 2 * t.x * cos_theta - nat 2 * t.x) / den
-    let j12 := (B * t.x + A * t.y - theta * t.x + nat 2 * t.y * cos_theta - nat 2 * t.y) / den
+    let C := nat 1 / theta - sin_theta / (nat 2 * (nat 1 - cos_theta))
+    let j02 := -t.y / nat 2 + C * t.x
+    let j12 := t.x / nat 2 + C * t.y
     ⟨j00, j01, j02, j10, j00, j12, nat 0, nat 0, nat 1⟩
   else
     let j00 := nat 1 - theta_sq / nat 12
